@@ -268,6 +268,106 @@ func c02randExcludeFile(rng *rand.Rand, c oracle.CIDR) string {
 	return b.String()
 }
 
+// c02judge compares what was probed with specification minus exclusions.
+func c02judge(run *vlab.Run, exp map[uint64]int32, obs *scanObs, ex []oracle.CIDR, c interface{}) {
+	missing, extra, repeated := oracle.DiffMultiset(exp, obs.got, 3)
+	for _, k := range extra {
+		a := uint32(k >> 16)
+		if oracle.Excluded(a, ex) {
+			run.Violation("excluded-address-probed", fmt.Sprintf("%s is covered by the exclusion list but was probed: %+v", oracle.KeyString(k), c), c)
+		} else {
+			run.Violation("probe-outside-target", fmt.Sprintf("%s is not in the target set but was probed: %+v", oracle.KeyString(k), c), c)
+		}
+	}
+	for _, k := range missing {
+		run.Violation("exclusion-over-reach", fmt.Sprintf("%s is in the target set and not covered by any exclusion entry, but was never probed: %+v", oracle.KeyString(k), c), c)
+	}
+	for _, k := range repeated {
+		run.Violation("target-repeated", fmt.Sprintf("%s probed x%d: %+v", oracle.KeyString(k), obs.got[k], c), c)
+	}
+}
+
+// c02fileModes: the same confinement oracle with the targets given as files (ip/port pairs,
+// addresses x ports from a regular file and from stdin) instead of a subnet.
+func c02fileModes(run *vlab.Run, dir string, first int) {
+	rng := run.Rand("exclude-files")
+	scans := []string{"icmp", "udp", "tcpsyn", "tcpflags", "generic", "generic"}
+	n := run.Pick(1200, 12000)
+	for i := 0; i < n; i++ {
+		c := &c01case{Scan: scans[rng.Intn(len(scans))], Layer: "engine", RandSeed: rng.Int63(), Workers: 3}
+		portless := c.Scan == "icmp"
+		if !portless && rng.Intn(3) == 0 {
+			c.Layer = "gen"
+		}
+		switch {
+		case portless:
+			c.Mode = "addrfile"
+		default:
+			c.Mode = []string{"ipportfile", "addrfile", "addrfile-stdin"}[rng.Intn(3)]
+		}
+		pool, _ := oracle.RefTarget(c01randSubnet(rng, 22+rng.Intn(7)))
+		na := 1 + rng.Intn(60)
+		for j := 0; j < na; j++ {
+			a := pool.Base + uint32(rng.Int63n(int64(pool.Size())))
+			if rng.Intn(10) == 0 {
+				a = rng.Uint32()
+			}
+			if c.Mode == "ipportfile" {
+				c.AddrPorts = append(c.AddrPorts, oracle.Key(a, uint16(1+rng.Intn(65535))))
+			} else {
+				c.Addrs = append(c.Addrs, a)
+			}
+		}
+		if c.Mode != "ipportfile" && !portless {
+			c.Ports = []string{"80", "22,443", "1000-1003", "53,53"}[rng.Intn(4)]
+		}
+		c.NFile = na
+		c.Exclude = c02randExcludeFile(rng, pool)
+		if !run.Mine(first + i) {
+			continue
+		}
+		run.Case(fmt.Sprintf("exf%05d", i), map[string]interface{}{"case": c, "file": truncStr(c01fileContent(c), 1500)})
+		ex, cls := oracle.RefExcludeFile(c.Exclude)
+		exp, ok := c01expected(c)
+		if cls != oracle.TargetValid || !ok {
+			continue
+		}
+		ctx, cancel := context.WithCancel(context.Background())
+		rand.Seed(c.RandSeed)
+		b, err := buildScan(ctx, dir, &scanSpec{Scan: c.Scan, Layer: c.Layer, Ports: c.Ports, Exclude: c.Exclude, RandSeed: c.RandSeed, Workers: 3,
+			HasFile: true, FileContent: c01fileContent(c), Stdin: c.Mode == "addrfile-stdin"})
+		if err != nil {
+			cancel()
+			run.Violation("valid-exclusion-file-rejected", fmt.Sprintf("%v: %+v", err, c), c)
+			continue
+		}
+		obs := runScan(run, ctx, b, 120*time.Second)
+		cancel()
+		run.Eval(1)
+		if obs.parked || obs.timeout {
+			run.Inconclusive("scan did not finish")
+			continue
+		}
+		c02judge(run, exp, obs, ex, c)
+		nex := 0
+		for _, a := range c.Addrs {
+			if oracle.Excluded(a, ex) {
+				nex++
+			}
+		}
+		for _, k := range c.AddrPorts {
+			if oracle.Excluded(uint32(k>>16), ex) {
+				nex++
+			}
+		}
+		run.Count("probes_observed", int64(len(obs.probes)))
+		run.Count("file_targets_excluded", int64(nex))
+		run.Count("file_pairs_checked", 1)
+		run.Count("file_mode:"+c.Scan+":"+c.Mode, 1)
+		run.Distinct(fmt.Sprintf("%+v/%v/%v", *c, c.Addrs, c.AddrPorts))
+	}
+}
+
 func TestVerifC02Exclude(t *testing.T) {
 	run := vlab.Begin(t, "C02", "exclude")
 	defer run.End()
@@ -275,6 +375,7 @@ func TestVerifC02Exclude(t *testing.T) {
 	rng := run.Rand("exclude")
 	scans := []string{"arp", "icmp", "udp", "tcpsyn", "tcpflags", "generic"}
 	n := run.Pick(2000, 20000)
+	defer c02fileModes(run, dir, n)
 	for i := 0; i < n; i++ {
 		c := &c02excase{Scan: scans[rng.Intn(len(scans))], Layer: "engine", RandSeed: rng.Int63()}
 		portless := c.Scan == "arp" || c.Scan == "icmp"
@@ -316,21 +417,7 @@ func TestVerifC02Exclude(t *testing.T) {
 			run.Inconclusive("scan did not finish")
 			continue
 		}
-		missing, extra, repeated := oracle.DiffMultiset(exp, obs.got, 3)
-		for _, k := range extra {
-			a := uint32(k >> 16)
-			if oracle.Excluded(a, ex) {
-				run.Violation("excluded-address-probed", fmt.Sprintf("%s is covered by the exclusion list but was probed: %+v", oracle.KeyString(k), c), c)
-			} else {
-				run.Violation("probe-outside-target", fmt.Sprintf("%s is not in the target set but was probed: %+v", oracle.KeyString(k), c), c)
-			}
-		}
-		for _, k := range missing {
-			run.Violation("exclusion-over-reach", fmt.Sprintf("%s is in the target set and not covered by any exclusion entry, but was never probed: %+v", oracle.KeyString(k), c), c)
-		}
-		for _, k := range repeated {
-			run.Violation("target-repeated", fmt.Sprintf("%s probed x%d: %+v", oracle.KeyString(k), obs.got[k], c), c)
-		}
+		c02judge(run, exp, obs, ex, c)
 		run.Count("probes_observed", int64(len(obs.probes)))
 		total := int64(cidr.Size())
 		if !portless {
